@@ -62,8 +62,13 @@ VARIABLES cfg,     \* [Minerals -> NULL or [phase, fabric, regime, n]]
 vars == <<cfg, hist, nUpd, Fm, disk, err, ops, log>>
 
 \* content terms ----------------------------------------------------------------
-InitO(seed, n, tex) == <<"o0", <<seed, n, tex>>>>
-InitF(n, tex)       == <<"f0", <<n, tex>>>>
+\* Contents are VALUES: the texture classes "layout" (client arrays that are not C-contiguous / strided views) and
+\* "layoutc" (the same numbers in plain C-ordered arrays) denote the same initial content, so every later snapshot
+\* of two such minerals driven identically must be bit-identical too (representation independence, bound by the
+\* term-to-digest rule like everything else).
+TexCanon(tex) == IF tex = "layoutc" THEN "layout" ELSE tex
+InitO(seed, n, tex) == <<"o0", <<seed, n, TexCanon(tex)>>>>
+InitF(n, tex)       == <<"f0", <<n, TexCanon(tex)>>>>
 \* no grain of this volume content can sit under the sliding floor chi/n (chi < 1):
 \* true for the uniform initial volumes 1/n of every texture class except "nonuniform"
 Floorless(f) == f[1] = "f0" /\ f[2][2] # "nonuniform"
